@@ -16,9 +16,11 @@ import (
 )
 
 var vfsFuncs = map[string]bool{"Create": true, "OpenFile": true, "WriteFile": true, "Remove": true, "RemoveAll": true,
-	"Rename": true, "Truncate": true, "MkdirAll": true, "Mkdir": true, "MkdirTemp": true}
+	"Rename": true, "Truncate": true, "MkdirAll": true, "Mkdir": true, "MkdirTemp": true,
+	"Open": true, "Stat": true, "Lstat": true, "ReadFile": true}
 
-var vfsMethods = map[string]string{"Write": "FileWrite", "WriteAt": "FileWriteAt", "WriteString": "FileWriteString", "Truncate": "FileTruncate"}
+var vfsMethods = map[string]string{"Write": "FileWrite", "WriteAt": "FileWriteAt", "WriteString": "FileWriteString", "Truncate": "FileTruncate",
+	"Read": "FileRead", "ReadAt": "FileReadAt", "Close": "FileClose", "Stat": "FileStat"}
 
 func isOSFilePtr(t types.Type) bool {
 	p, ok := t.(*types.Pointer)
@@ -29,18 +31,20 @@ func isOSFilePtr(t types.Type) bool {
 	return ok && n.Obj().Name() == "File" && n.Obj().Pkg() != nil && n.Obj().Pkg().Path() == "os"
 }
 
-func hasWriteMethod(t types.Type) bool {
+func hasMethodNamed(t types.Type, name string) bool {
 	it, ok := t.Underlying().(*types.Interface)
 	if !ok {
 		return false
 	}
 	for i := 0; i < it.NumMethods(); i++ {
-		if it.Method(i).Name() == "Write" {
+		if it.Method(i).Name() == name {
 			return true
 		}
 	}
 	return false
 }
+
+func hasWriteMethod(t types.Type) bool { return hasMethodNamed(t, "Write") }
 
 // InstrumentVFS rewrites the repository's non-test, non-harness sources so that every
 // mutating file-system call goes through internal/vrt/vfs. Rewritten copies are written
@@ -91,6 +95,9 @@ func InstrumentVFS(pkgs []*packages.Package, repoDir, genDir string) (map[string
 						}
 						if pt != nil && hasWriteMethod(pt) {
 							call.Args[ai] = &ast.CallExpr{Fun: &ast.SelectorExpr{X: ast.NewIdent("vfs"), Sel: ast.NewIdent("W")}, Args: []ast.Expr{arg}}
+							changed = true
+						} else if pt != nil && hasMethodNamed(pt, "Read") {
+							call.Args[ai] = &ast.CallExpr{Fun: &ast.SelectorExpr{X: ast.NewIdent("vfs"), Sel: ast.NewIdent("R")}, Args: []ast.Expr{arg}}
 							changed = true
 						}
 					}
@@ -261,6 +268,7 @@ func syncKind(st ast.Stmt, info *types.Info) string {
 // instrumentSched inserts scheduling points into one file; returns true if it changed.
 func instrumentSched(fset *token.FileSet, file *ast.File, info *types.Info) bool {
 	changed := false
+	done := map[ast.Stmt]bool{}
 	posOf := func(n ast.Node) string {
 		p := fset.Position(n.Pos())
 		return fmt.Sprintf("%s:%d", filepath.Base(p.Filename), p.Line)
@@ -311,7 +319,7 @@ func instrumentSched(fset *token.FileSet, file *ast.File, info *types.Info) bool
 					&ast.FuncLit{Type: &ast.FuncType{Params: &ast.FieldList{}}, Body: &ast.BlockStmt{List: []ast.Stmt{&ast.ExprStmt{X: inner}}}}},
 			}})
 			repl = blk
-		} else if k := syncKind(st, info); k != "" {
+		} else if k := syncKind(st, info); k != "" && !done[st] {
 			before = pointCall(k, posOf(st))
 		}
 		if repl == nil && before == nil {
@@ -320,15 +328,16 @@ func instrumentSched(fset *token.FileSet, file *ast.File, info *types.Info) bool
 		changed = true
 		if repl != nil {
 			c.Replace(repl)
-			return false
+			return true // continue into the function literal / arguments
 		}
+		done[st] = true
 		if c.Index() >= 0 {
 			c.InsertBefore(before)
 			return true
 		}
 		// not in a statement list (e.g. the statement of a label): wrap in a block
 		c.Replace(&ast.BlockStmt{List: []ast.Stmt{before, st}})
-		return false
+		return true
 	}, nil)
 	return changed
 }
